@@ -55,6 +55,9 @@ func main() {
 			if i%8 == 7 { // own streams, see extra.go
 				stream = "extra"
 				line, class = extraLine(r)
+			} else if i%8 == 3 {
+				stream = "numeral"
+				line, class = numeralLine(r)
 			} else {
 				line, class = lexgen.Line(r, stream)
 			}
